@@ -34,3 +34,18 @@ claim("C05", "other", "lock-region dataflow (must/may held, interprocedural), lo
       "Decides the synchronisation skeleton every schedule relies on (L1 lock-protects-field with callers included, L2 acyclic lock order / no re-acquisition / unlock on every path, L3 no lock across user callbacks or file I/O, P1 pin pairing with the two-release rule after a successful publish, RC1 chain threshold = collection's reference + caller pins, W1 copy-on-write freshness of every structural write, A1 atomics on Store.size, FL1 sorted-name pin order before any write, N1 nil checks). These are necessary conditions for 'readers see one consistent version, no panic, no deadlock, flusher captures versions in name order'; they are checked for all paths and call sites, not for sampled schedules. Not decided: linearizability of reads, absence of lost updates, refcount arithmetic over histories.",
       "Trusted: go/ssa; lock identity by field/variable (not instance); single mutator + single flusher as the property states.",
       "DESIGN.md §4 C05")
+
+claim("C04", "other", "guard-dominance over call paths (read-only), snapshot-construction shape, sole-ownership guard of bulk marking, copy-on-write freshness, refcount protocol rules",
+      "Decides the structural clauses snapshots rest on: every publish/file write/truncate lies behind a false-arm Store.readOnly test on every call path and the mutators refuse on its true arm (G1); Snapshot pins every version through rootAddRef, shares the lock, copies the map and is read-only (S1); nodes are never modified once published (W1); versions are reclaimed only at refs <= 0 (F2), the whole tree is marked reclaimable only under sole ownership of a writable store decided under the lock (F3 — this rule found defect D3, now fixed), per-node marks follow copies (F4/F5); chain threshold and pin pairing (RC1/P1). Necessary conditions of isolation/harmlessness for all histories; the contents a snapshot observes over histories and release orders are not decided.",
+      "Trusted: go/ssa; lock identity by field; neutral callbacks.",
+      "DESIGN.md §4 C04")
+
+claim("C10", "other", "who-may-write (free lists), guard dominance (refs <= 0, sole ownership), mark-follows-copy path rule, re-target argument provenance",
+      "Decides the structural preconditions of invisible recycling: F1 free lists written only by allocator routines; F2 reclaim only at refs <= 0; F3 bulk mark only under sole ownership (found D3); F4 every per-node mark follows the superseding mkNode and uses the caller's version mark; F5 re-targeting goes from the pinned old version to the fresh new one and temporaries are parked; E3 failed mutations clear their marks (found D7); W1, L1, RC1, P1 shared with C05. Unobservability over all histories and release orders, and refcount arithmetic, are not decided.",
+      "Trusted: go/ssa; single mutator.",
+      "DESIGN.md §4 C10")
+
+claim("C12", "other", "copy-on-write check of the collection map, hand-over shape of SetCollection, close-after-swap ordering, no-file-effect reachability",
+      "Decides: the collection map is never modified in place or after publication (M1); GetCollectionNames is sorted on every return (M2); an existing name hands its version to the new handle by a pinned reference under the same lock, old handles are closed only after a successful swap (M3); closing cannot recycle shared nodes (F3, found D3); management functions reach no file sink, so durability comes only from Flush, which pins the names of one map snapshot in sorted order (M5/FL1). Name-set bookkeeping across flush/reopen histories is not decided.",
+      "Trusted: go/ssa.",
+      "DESIGN.md §4 C12")
